@@ -55,6 +55,8 @@ def run(ctx):
             pools.option(scenario="seaweed", shutoff="continued"),
             dict(pools.BASELINE_OPTION)]
     real = pools.sample_runs(rng, nreal, must=must[: (2 if ctx.quick else 3)], countries=["USA", "ARG", "BRA", "IND", "CHN", "FRA"] if ctx.quick else None, horizons=(120,) if ctx.quick else (48, 72, 120))
+    # a surplus country with both industrial foods and a continued shut-off: every per-source feed / biofuel series is non-zero
+    real.append({"iso3": "ARG", "option": pools.option(scenario="industrial_foods", shutoff="continued")})
     res = ctx.run_impl("lp_impl", {"synthetic": specs, "real": real, "rows_for_real": True, "procs": 14})
     dist = {"synthetic_built": 0, "synthetic_solved": 0, "synthetic_infeasible": 0, "assert_rejected": 0,
             "real_runs": 0, "real_solves": 0, "to_humans": 0, "to_animals": 0, "flags": {}, "N": {}}
@@ -143,7 +145,12 @@ def run(ctx):
                           {"kind": "counterexample", "where": where, "lp_in": rec["lp_in"], "values": rec["values"], "code": cs[1]})
         # the property itself, from the supplies
         if "values" in rec:
-            for key, what, detail in lpaudit.audit_c01(rec):
+            found = lpaudit.audit_c01(rec)
+            if kind == "real":
+                rr = lpaudit.audit_reported(rec)
+                found += rr
+                ctx.notes["reported_series_audited"] = ctx.notes.get("reported_series_audited", 0) + (1 if "reported" in rec else 0)
+            for key, what, detail in found:
                 rep = {"kind": "counterexample", "where": where, "detail": detail, "ty": rec["ty"]}
                 if kind == "real":
                     rep["rerun"] = {"iso3": item["iso3"], "option": item["option"], "solve": item["solve"]}
@@ -206,6 +213,6 @@ def replay(rep):
         return 1
     found = []
     for rec in recs:
-        found += [k for k, _, _ in lpaudit.audit_c01(rec)]
+        found += [k for k, _, _ in lpaudit.audit_c01(rec) + lpaudit.audit_reported(rec)]
     print("violations reproduced:", found)
     return 1 if rep.get("key") in found or (found and rep.get("key", "").startswith("C01:tie")) else 0
